@@ -474,6 +474,8 @@ impl<'a, W: 'static, R: 'static, T: 'static> RuntimeScope<'a, W, R, T> {
                             if let Some(err) = new_args.iter().find_map(|a| a.as_ref().err()) {
                                 break Ok(TailedEvalResult::Value(Err(err.clone())));
                             }
+                            // a tail call begins the function again: the time limit applies like for any call
+                            rt.check_timeout()?;
                             args = new_args;
                         }
                         v => break Ok(v),
